@@ -409,7 +409,10 @@ def run_rule_cli(binary, pdir, rule, sources):
     snap_path = os.path.join(pdir, "tests", "__snapshots__", f"{rid}-snapshot.yml")
     snaps = {}
     if os.path.exists(snap_path):
-        import yaml
+        try:
+            import yaml
+        except ImportError:
+            vlib.machinery("PyYAML is needed to read the `sg test` snapshot files")
         doc = yaml.safe_load(open(snap_path, encoding="utf-8"))
         snaps = (doc or {}).get("snapshots") or {}
     res["snap"] = [snaps.get(s) for s in sources]
